@@ -57,6 +57,7 @@ Inductive case :=
 | CBoundsValid (bounds : list num) (accepted : bool)
 | CExpoValid (maxsize maxscale : Z) (accepted : bool)
 | CExplicit (bounds : list num) (vals : list num) (o : hobs)
+| CExplicitRaw (given reported : list num) (vals : list num) (o : hobs)
 | CExpo (maxsize maxscale : Z) (vals : list num) (prev_scale : option Z) (o : eobs)
 | CBin (scale : Z) (v : num) (bin : Z)
 | CBigInt (v : Z) (bound : num) (counts : list N) (scale : Z) (bin : Z).
@@ -76,7 +77,7 @@ Definition is_int (x : num) : bool := match x with I _ => true | _ => false end.
 Definition vals_int (l : list num) : bool := match l with x :: _ => is_int x | [] => false end.
 
 (** ** Explicit histogram *)
-Definition check_explicit (bounds vals : list num) (o : hobs) : list N :=
+Definition check_explicit_gen (order_ok : list Z -> bool) (bounds vals : list num) (o : hobs) : list N :=
   match bounds_fx bounds, nums_fx vals with
   | Some bz, Some vz =>
   match ext_fx (ho_min o) (zmin_l vz), ext_fx (ho_max o) (zmax_l vz) with
@@ -94,12 +95,28 @@ Definition check_explicit (bounds vals : list num) (o : hobs) : list N :=
                 (negb ck || (sum_known && (h_total h =? osum)))
             | None => false
             end) V_MISMATCH ++
-      flag (strictly_increasing bz && hist_point_okb ck bz vz p && (negb ck || sum_known)) V_SPECFAIL ++
+      flag (order_ok bz && hist_point_okb ck bz vz p && (negb ck || sum_known)) V_SPECFAIL ++
       flag (match hist_run bz vz with
             | Some h => hist_point_okb true bz vz (hist_to_point h)
             | None => false end) V_MODELSPEC
   | _, _ => [V_MISMATCH]
   end
+  | _, _ => [V_MISMATCH]
+  end.
+
+Definition check_explicit := check_explicit_gen strictly_increasing.
+Definition check_explicit_weak := check_explicit_gen weakly_increasing.
+
+(** Boundaries that reached the aggregator unvalidated (function View): the point must report the
+    sorted configured list ([sort_bounds], c07_explicit_any_bounds) and satisfy every clause for it. *)
+Definition zlist_eqb := list_eqb Z.eqb.
+Definition check_explicit_raw (given reported vals : list num) (o : hobs) : list N :=
+  match bounds_fx given, bounds_fx reported with
+  | Some gz, Some rz =>
+      flag (zlist_eqb (sort_bounds gz) rz) V_MISMATCH ++
+      flag (weakly_increasing rz && zlist_eqb (sort_bounds gz) (sort_bounds rz)) V_SPECFAIL ++
+      (* every clause, judged against the boundaries the point reports *)
+      check_explicit_weak reported vals o
   | _, _ => [V_MISMATCH]
   end.
 
@@ -231,6 +248,7 @@ Definition check_case (c : case) : list N :=
       flag (Bool.eqb (expo_valid ms mxs) accepted) V_MISMATCH ++
       flag (Bool.eqb (expo_config_ok ms mxs) accepted) V_SPECFAIL
   | CExplicit bounds vals o => check_explicit bounds vals o
+  | CExplicitRaw given reported vals o => check_explicit_raw given reported vals o
   | CExpo ms mxs vals prev o => check_expo ms mxs vals prev o
   | CBin s v bin => check_bin_case s v bin
   | CBigInt v bound counts s bin => check_bigint v bound counts s bin
